@@ -32,7 +32,19 @@ static Built build(Rng& r, const GenCfg& cfg, int rows, int cols) {
     b.args->set_ref(i, s); g.syms.push_back(&s); b.nvar += d.size();
   }
   if (cfg.allow_apply) { int nf = r.below(3); for (int k = 0; k < nf; k++) { Function* f = make_aux(r, k); g.funs.push_back(f); b.aux.push_back(f); } }
-  const ExprNode& e = g.gen(rows, cols, cfg.max_depth);
+  const ExprNode* ep = 0;
+  if ((rows == 1) != (cols == 1) && rows * cols >= 3 && r.coin(25)) {
+    // a vector whose blocks are sub-vectors and scalars, one of them with a partial domain (sqrt): exception paths + block offsets
+    int n = rows * cols; int k = r.range(2, n - 1); bool row = rows == 1;
+    const ExprNode& blk = g.gen(row ? 1 : k, row ? k : 1, 2);
+    const ExprNode& leaf = g.leaf(1, 1);
+    Array<const ExprNode> a(n - k + 1); int pos = 0; bool first = r.coin(70);
+    if (first) a.set_ref(pos++, blk);
+    for (int i = 0; i < n - k; i++) a.set_ref(pos++, i == 0 ? (const ExprNode&)sqrt(leaf + (double)r.range(-2, 2)) : g.gen(1, 1, 2));
+    if (!first) a.set_ref(pos++, blk);
+    ep = &ExprVector::new_(a, row ? ExprVector::ROW : ExprVector::COL);
+  } else ep = &g.gen(rows, cols, cfg.max_depth);
+  const ExprNode& e = *ep;
   b.dag = dump_expr(e, *b.args);
   b.f = new Function(*b.args, e, "f");
   return b;
